@@ -3,7 +3,7 @@
    "a dequeue is never blocked while a window slot is free". *)
 From Coq Require Import List NArith Bool Lia ZArith ZifyN ZifyNat ZifyBool.
 From GM Require Import Base.Lts Codec.Packet Session.Ids Session.Store Session.StoreProofs
-  Broker.Conn Broker.ConnSpec Broker.ConnBase Broker.ConnProofsC0 Broker.ConnProofsC1
+  Broker.Conn Broker.ConnSpec Broker.ConnBase Broker.ConnProofsCDefs Broker.ConnProofsC0 Broker.ConnProofsC1
   Broker.ConnProofsC2 Broker.ConnProofsC4.
 Import ListNotations.
 Open Scope N_scope.
@@ -101,13 +101,6 @@ Theorem INVW_reachable es s : bc_run es = Some s -> INVW s.
 Proof. apply (bc_invariant INVW INVW_init INVW_step). Qed.
 
 (* ------------------------------------------------------------ conservation *)
-
-(* the scanner state reached after a trace *)
-Fixpoint srun {S : Type} (f : S -> event -> option S) (t : S) (es : list event) : option S :=
-  match es with
-  | [] => Some t
-  | e :: es' => match f t e with Some t' => srun f t' es' | None => None end
-  end.
 
 Lemma wb_run_rel : forall es s t u s', INV s -> R_wb s t u -> Lts.run step s es = Some s' ->
   scan rf_step u es = true -> exists t' u', srun wb_step t es = Some t' /\ R_wb s' t' u'.
